@@ -84,27 +84,30 @@ Theorem C19_never_blocks : forall evs, valid evs = true ->
 Proof. exact never_panics. Qed.
 
 (* the hazard outside those histories is real in the model: a notify after the end panics *)
-Theorem C19_send_after_close_panics :
-  snd (run init [Subscribe 1 2; WatchStart; EndWatch; Notify [(1%N, [2%N])]]) = None.
-Proof. exact (proj2 notify_after_close_panics). Qed.
+Theorem C19_send_after_close_panics : forall failed,
+  snd (run init [Subscribe 1 2; WatchStart; EndWatch failed; Notify [(1%N, [2%N])]]) = None.
+Proof. intros f. exact (proj2 (notify_after_close_panics f)). Qed.
 
-(* end of watch: every subscription made before it is closed, by exactly one close(); a
-   subscription made after it is never closed (its reader would wait forever) *)
-Theorem C19_close : forall pre post,
-  valid (pre ++ EndWatch :: post) = true ->
-  exists outs st, run init (pre ++ EndWatch :: post) = (outs, Some st) /\
-    forall i s, nth_error (subs st) i = Some s ->
+(* end of watch -- whether the watch function returned nil (context cancelled) or an error
+   ([failed]: no rtnetlink socket, a receive error, an unsupported OS): every subscription made
+   before it is closed, by exactly one close(); a subscription made after it is never closed (its
+   reader would wait forever); and Watch returns what the watch function returned *)
+Theorem C19_close : forall pre post failed,
+  valid (pre ++ EndWatch failed :: post) = true ->
+  exists outs st, run init (pre ++ EndWatch failed :: post) = (outs, Some st) /\
+    (forall i s, nth_error (subs st) i = Some s ->
       if Nat.ltb i (count_subscribe pre)
       then s_closed s = true /\ s_closes s = 1
-      else s_closed s = false /\ s_closes s = 0.
+      else s_closed s = false /\ s_closes s = 0) /\
+    In (OEnd failed) outs.
 Proof.
-  intros pre post V. destruct (close_lemma pre post init) as [outs [st [R C]]]; auto; [constructor |].
-  exists outs, st. split; [exact R | exact C].
+  intros pre post f V. destruct (close_lemma pre post f init) as [outs [st [R [C I]]]]; auto; [constructor |].
+  exists outs, st. split; [exact R | split; [exact C | exact I]].
 Qed.
 
 (* without an end of watch nothing is closed *)
 Theorem C19_open_until_end : forall evs,
-  valid evs = true -> (forall e, In e evs -> e <> EndWatch) ->
+  valid evs = true -> (forall e failed, In e evs -> e <> EndWatch failed) ->
   exists outs st, run init evs = (outs, Some st) /\
     Forall (fun s => s_closed s = false /\ s_closes s = 0) (subs st).
 Proof.
@@ -121,11 +124,12 @@ Proof. exact watch_twice_panics. Qed.
    checked by computation).  One subscriber with [mask] on interface 1; one change [c] on
    interface [ifc]; it is received iff the interface matches and mask & c <> 0; after the end the
    channel is seen closed. *)
-Theorem C19_single_event : forall mask c ifc,
+Theorem C19_single_event : forall mask c ifc failed,
   (1 <= mask <= 127)%N -> In c [1; 2; 4; 8; 16; 32; 64]%N -> In ifc [1%N; 2%N] ->
-  fst (run init [Subscribe 1 mask; WatchStart; Notify [(ifc, [c])]; Drain 0 9; EndWatch; Drain 0 9]) =
+  fst (run init [Subscribe 1 mask; WatchStart; Notify [(ifc, [c])]; Drain 0 9; EndWatch failed; Drain 0 9]) =
   [OWatch false;
    ODrain (if N.eqb ifc 1 && negb (N.eqb (N.land mask c) 0) then [c] else []) false;
+   OEnd failed;
    ODrain [] true].
 Proof. exact single_event. Qed.
 
@@ -151,13 +155,14 @@ Theorem C19_operstate : forall code,
 Proof. exact oper_state_change_spec. Qed.
 
 (* non-vacuity: two subscribers, a burst of ten changes; the slow one loses the 9th and 10th
-   relevant change, the LinkDown-only one gets its two; both are closed at the end *)
+   relevant change, the LinkDown-only one gets its two; the watch function then FAILS: both are
+   closed at the end all the same and Watch reports the failure *)
 Example C19_example :
   let h := [Subscribe 1 127; Subscribe 1 2; WatchStart;
             Notify [(1, [1; 2; 4; 8; 16; 32; 64; 1; 2; 4]); (2, [2])]%N;
-            EndWatch; Drain 0 20; Drain 1 20] in
+            EndWatch true; Drain 0 20; Drain 1 20] in
   valid h = true /\
-  fst (run init h) = [OWatch false; ODrain [1; 2; 4; 8; 16; 32; 64; 1]%N true; ODrain [2; 2]%N true] /\
+  fst (run init h) = [OWatch false; OEnd true; ODrain [1; 2; 4; 8; 16; 32; 64; 1]%N true; ODrain [2; 2]%N true] /\
   arrivals 0 1 127 (skipn 1 h) =
     [(1%N, 0); (2%N, 1); (4%N, 2); (8%N, 3); (16%N, 4); (32%N, 5); (64%N, 6); (1%N, 7); (2%N, 8); (4%N, 8)].
 Proof. repeat split; reflexivity. Qed.
